@@ -521,6 +521,15 @@ class C18(PersistProfile):
             if r.kind != "ok" or r.raw is not True:
                 A.violate(("C18",), "deep_eq:not_reflexive", "%s.deep_eq(itself) = %r" % (ir, r.raw if r.kind == "ok" else r.exc))
         if op.get("nodes"):
+            # different nodes (other UUID and / or other kind) are never deep_eq, in either direction
+            labs = [l for l in A.m.nodes if l in A.objs and l in B.objs]
+            rr = _rng(seed, run, "pairs", i)
+            for _ in range(min(6, len(labs))):
+                l1, l2 = rr.choice(labs), rr.choice(labs)
+                if l1 == l2 or A.m.nodes[l1].uuid == B.m.nodes[l2].uuid:
+                    continue
+                self.judge_pair(ctx, seed, run, i, A, A.objs[l1], B.objs[l2], False, "different nodes %s and %s" % (l1, l2), "cross")
+                A.counters["probe:deq_cross_pairs"] += 1
             for l in list(A.m.nodes):
                 if l == ir or l not in B.m.nodes or l not in A.objs or l not in B.objs:
                     continue
